@@ -21,6 +21,8 @@ import (
 
 	"perkeep.org/pkg/auth"
 	"perkeep.org/pkg/blob"
+	"perkeep.org/pkg/blobserver/handlers"
+	"perkeep.org/pkg/blobserver/memory"
 	"perkeep.org/pkg/client"
 	"perkeep.org/pkg/serverinit"
 )
@@ -115,7 +117,7 @@ func (s *c18server) raw(method, path string, body io.Reader, ctype string) (int,
 
 func runC18(c *ctx) {
 	c.rep.Rule = "servers built by serverinit from high-level configurations {memory, localdisk, diskpacked, blobpacked} x {memory, leveldb, kv, sqlite index} (ui/importer handlers dropped), served by httptest; through pkg/client: uploads (empty blob, 1 byte, 70 KB, duplicates), StatBlobs with cached and uncached, present and absent refs, Fetch, EnumerateBlobs / EnumerateBlobsOpts with limits; " +
-		"raw requests: PUT and multipart uploads, stat batches of 1, 7, 1000 and 1001 blobN values (with duplicates), enumerate with limit 0/1/2/3/n/huge/garbage followed through continueAfter, enumerate and stat with maxwaitsec; everything compared with the reference map kept by the harness and with the model of the handlers; non-trivial = distinct request that involves at least one present blob"
+		"the enumerate handler directly over a storage announcing MaxEnumerate()=5 with limits below, at and above it; raw requests: PUT and multipart uploads, stat batches of 1, 7, 1000 and 1001 blobN values (with duplicates), enumerate with limit 0/1/2/3/n/huge/garbage followed through continueAfter, enumerate and stat with maxwaitsec; everything compared with the reference map kept by the harness and with the model of the handlers; non-trivial = distinct request that involves at least one present blob"
 	old := log.Writer()
 	log.SetOutput(io.Discard)
 	defer log.SetOutput(old)
@@ -126,6 +128,7 @@ func runC18(c *ctx) {
 	w, err := newWorld()
 	must(err)
 	secring := filepath.Join(repoRoot(), "pkg", "jsonsign", "testdata", "test-secring.gpg")
+	c18Capped(c)
 	storages := []string{"memory", "localdisk", "diskpacked", "blobpacked"}
 	indexes := []string{"memory", "leveldb", "kv", "sqlite"}
 	n := 0
@@ -181,6 +184,93 @@ func runC18(c *ctx) {
 			if srv.shut != nil {
 				srv.shut.Close()
 			}
+		}
+	}
+}
+
+// c18capped announces a small per-request maximum, as the cloud storages do (1000 or 5000 there)
+type c18capped struct {
+	*memory.Storage
+	max int
+}
+
+func (s c18capped) MaxEnumerate() int { return s.max }
+
+// c18Capped drives the enumerate handler directly over a storage with MaxEnumerate() = 5 holding 13 blobs
+func c18Capped(c *ctx) {
+	sto := c18capped{&memory.Storage{}, 5}
+	var refs []string
+	for i := 0; i < 13; i++ {
+		content := fmt.Sprintf("capped blob %d seed %d", i, c.seed)
+		br := blob.RefFromString(content)
+		sto.ReceiveBlob(context.Background(), br, strings.NewReader(content))
+		refs = append(refs, br.String())
+	}
+	sort.Strings(refs)
+	rank := map[string]int{}
+	var mq []string
+	key := func(i int) string { return fmt.Sprintf("[%d; %d]", 48+i/10, 48+i%10) }
+	for i, r := range refs {
+		rank[r] = i + 1
+		mq = append(mq, fmt.Sprintf("(%s, [1])", key(i+1)))
+	}
+	world := "[" + strings.Join(mq, "; ") + "]"
+	ts := httptest.NewServer(handlers.CreateEnumerateHandler(sto))
+	defer ts.Close()
+	for _, lim := range []string{"", "3", "5", "6", "7", "100000", "abc"} {
+		var all, pages []string
+		after := ""
+		status := 200
+		for n := 0; n < 20; n++ {
+			q := url.Values{}
+			if lim != "" {
+				q.Set("limit", lim)
+			}
+			if after != "" {
+				q.Set("after", after)
+			}
+			resp, err := http.Get(ts.URL + "/?" + q.Encode())
+			if err != nil {
+				status = 0
+				break
+			}
+			body, _ := io.ReadAll(resp.Body)
+			resp.Body.Close()
+			status = resp.StatusCode
+			var r struct {
+				Blobs []struct {
+					BlobRef string `json:"blobRef"`
+				} `json:"blobs"`
+				ContinueAfter string `json:"continueAfter"`
+			}
+			if status != 200 || json.Unmarshal(body, &r) != nil {
+				break
+			}
+			var pg []string
+			for _, b := range r.Blobs {
+				all = append(all, b.BlobRef)
+				pg = append(pg, key(rank[b.BlobRef]))
+			}
+			pages = append(pages, "["+strings.Join(pg, "; ")+"]")
+			if r.ContinueAfter == "" {
+				break
+			}
+			after = r.ContinueAfter
+		}
+		limq := "None"
+		switch {
+		case lim == "":
+		case lim == "abc":
+			limq = "(Some None)"
+		default:
+			limq = fmt.Sprintf("(Some (Some %s%%nat))", lim)
+		}
+		c.rep.SpecChecks++
+		idx := c.addCase(fmt.Sprintf("CEnumMax %s 5%%nat %s %s [%s]", world, limq, qb(status == 200), strings.Join(pages, "; ")),
+			map[string]any{"server": "enumerate handler over a storage with MaxEnumerate()=5", "op": "raw enumerate", "limit": lim, "pages": len(pages)}, true)
+		c.count("enumerate", fmt.Sprintf("capped storage, limit %q", lim))
+		if strings.Join(all, ",") != strings.Join(refs, ",") {
+			c.violation(idx, "c18-enumerate", fmt.Sprintf("storage with a per-request maximum of 5, limit=%q: following continueAfter lists %d of %d refs in %d pages", lim, len(all), len(refs), len(pages)), nil)
 		}
 	}
 }
